@@ -41,7 +41,8 @@ def configs(tier):
             out.append({'name': 'qbfs_zprime-len%d-%s' % (ln, pattern), 'kind': 'qbfs', 'len': ln, 'pattern': pattern})
             out.append({'name': 'qcon_zprime-len%d-%s' % (ln, pattern), 'kind': 'qcon', 'len': ln, 'pattern': pattern})
     for m in range(1, (3 if q else 4) + 1):
-        for la, lb in ((1, 1), (2, 1), (3, 3), (4, 2), (5, 5) if not q else (4, 4)):
+        # |m| == 1 uses an extra alpha[3] correction once a family has more than 3 terms: lengths must go past 5
+        for la, lb in ((1, 1), (2, 1), (3, 3), (4, 2), (5, 6), (6, 5)) if m == 1 else ((1, 1), (2, 1), (3, 3), (4, 2)):
             out.append({'name': 'q2d_zprime-m%d-a%d-b%d' % (m, la, lb), 'kind': 'q2d', 'm': m, 'la': la, 'lb': lb})
     out.append({'name': 'q2d_zprime-mixed', 'kind': 'q2d_mixed'})
     for s in ('sphere', 'conic'):
